@@ -128,7 +128,7 @@ struct Cfg {
     iter_limit: usize,
     node_limit: usize,
     time_zero: bool,
-    hook: usize, // 0 none, 1 fail at first call, 2 fail at second call, 3 fail when >= 8 nodes
+    hook: usize, // 0 none, 1 fail at first call, 2 fail at second call, 3 fail when >= 8 nodes, 4 inserts a new term on every call, 5 inserts a term and fails at the second call
 }
 
 fn cfgs() -> Vec<Cfg> {
@@ -136,7 +136,7 @@ fn cfgs() -> Vec<Cfg> {
     for iter_limit in [0usize, 1, 2, 5] {
         for node_limit in [1usize, 10, 10_000] {
             for time_zero in [false, true] {
-                for hook in 0..4 {
+                for hook in 0..6 {
                     v.push(Cfg { iter_limit, node_limit, time_zero, hook });
                 }
             }
@@ -223,10 +223,15 @@ fn run_runner(start: &T, rules_idx: &[usize], c: Cfg) -> (Vec<Fail>, u64, u64, V
         if hookno > 0 {
             runner = runner.with_hook(move |r: &mut Runner<Ar, (), (), String>| {
                 cl.set(cl.get() + 1);
+                if hookno >= 4 {
+                    // a hook that changes the e-graph: the report must still describe the final state
+                    r.egraph.add(Ar::Num(1000 + cl.get() as u32));
+                }
                 let fail = match hookno {
                     1 => cl.get() == 1,
-                    2 => cl.get() == 2,
-                    _ => r.egraph.total_number_of_nodes() >= 8,
+                    2 | 5 => cl.get() == 2,
+                    3 => r.egraph.total_number_of_nodes() >= 8,
+                    _ => false,
                 };
                 if fail {
                     hf.set(true);
@@ -306,10 +311,13 @@ fn run_eqsat_cfg(start: &T, rules_idx: &[usize], c: Cfg) -> (Vec<Fail>, u64, u64
     let r = catch(|| {
         run_eqsat(&mut eg, rules, c.iter_limit, if c.time_zero { 0 } else { usize::MAX }, move |eg: &mut EGraph<Ar>| {
             cl.set(cl.get() + 1);
+            if hookno >= 4 {
+                eg.add(Ar::Num(1000 + cl.get() as u32));
+            }
             let fail = match hookno {
-                0 => false,
+                0 | 4 => false,
                 1 => cl.get() == 1,
-                2 => cl.get() == 2,
+                2 | 5 => cl.get() == 2,
                 _ => eg.total_number_of_nodes() >= 8,
             };
             if fail {
@@ -378,7 +386,7 @@ impl Prop for SaturateProp {
         let nc = cfgs().len() as u64;
         vec![
             Seg { name: "apply_rewrites: terms x rule-sets".into(), count: nt * nr, what: format!("one index = one of {nt} start terms x one of {nr} rule sets; up to 5 calls of apply_rewrites, independent fingerprint before/after each") },
-            Seg { name: "Runner::run: terms x rule-sets x limits x hooks".into(), count: nt * nr * nc, what: format!("one index = start term x rule set x one of {nc} configurations (iter_limit 0/1/2/5, node_limit 1/10/10000, time_limit 0/max, hook none/fail@1/fail@2/fail-at-8-nodes)") },
+            Seg { name: "Runner::run: terms x rule-sets x limits x hooks".into(), count: nt * nr * nc, what: format!("one index = start term x rule set x one of {nc} configurations (iter_limit 0/1/2/5, node_limit 1/10/10000, time_limit 0/max, hook none/fail@1/fail@2/fail-at-8-nodes/mutating/mutating+fail@2)") },
             Seg { name: "run_eqsat: terms x rule-sets x limits x hooks".into(), count: nt * nr * (nc / 3), what: "one index = start term x rule set x configuration (iter_limit, time_limit 0/max, hook) for run_eqsat".into() },
         ]
     }
@@ -386,7 +394,7 @@ impl Prop for SaturateProp {
         vec!["stop_saturated", "stop_iteration_limit", "stop_node_limit", "stop_time_limit", "stop_other_hook", "apply_rewrites_false_seen", "change_without_new_nodes"]
     }
     fn rule(&self) -> String {
-        "Start terms (binder-heavy specials, three-slot terms whose class gains symmetries stepwise, all terms of size <=2 (thorough 3)) x rule sets (each single rule of the 20-rule pool, 8 chosen pairs/triples, the full pool, the empty set). (1) apply_rewrites up to 5 times: whenever it returns false an independent fingerprint (node count, per-class slots / e-nodes / symmetry count by brute-force eq over all permutations, canonical form of every known invocation) taken before must equal the one taken after. (2) Runner::run and (3) run_eqsat under every combination of iter_limit 0/1/2/5, node_limit 1/10/10000, time_limit 0/unbounded and hooks none / fail at call 1 / fail at call 2 / fail at 8 nodes: report.egraph_nodes equals the e-graph's, iterations <= iter_limit+2, the stop reason is true of the final state (limit really exceeded, hook really failed, TimeLimit only with limit 0), and after Saturated one more application of all rules changes nothing and every match of every rule already has equal sides. Non-trivial = runs, distinct states = (reason, iterations, nodes).".into()
+        "Start terms (binder-heavy specials, three-slot terms whose class gains symmetries stepwise, all terms of size <=2 (thorough 3)) x rule sets (each single rule of the 20-rule pool, 8 chosen pairs/triples, the full pool, the empty set). (1) apply_rewrites up to 5 times: whenever it returns false an independent fingerprint (node count, per-class slots / e-nodes / symmetry count by brute-force eq over all permutations, canonical form of every known invocation) taken before must equal the one taken after. (2) Runner::run and (3) run_eqsat under every combination of iter_limit 0/1/2/5, node_limit 1/10/10000, time_limit 0/unbounded and hooks none / fail at call 1 / fail at call 2 / fail at 8 nodes / insert a new term on every call / insert and fail at call 2: report.egraph_nodes equals the e-graph's, iterations <= iter_limit+2, the stop reason is true of the final state (limit really exceeded, hook really failed, TimeLimit only with limit 0), and after Saturated one more application of all rules changes nothing and every match of every rule already has equal sides. Non-trivial = runs, distinct states = (reason, iterations, nodes).".into()
     }
     fn assumptions(&self) -> Vec<String> {
         vec!["time limits are only 0 or unbounded, the two values whose outcome does not depend on the wall clock".into()]
